@@ -57,6 +57,12 @@ def run(ctx):
         n += 1
         if not o['capture_while_reading']:
             mutual += 1
+        else:
+            # a capture site ran while a reader sat inside Marshal (it holds the read lock from marshal.begin to marshal.end):
+            # unsynchronised concurrent access, whether or not the value came out torn this time
+            ctx.violation({'check': 'C07', 'kind': 'capture_during_marshal', 'park': sc['park']},
+                          'request 1 parked at marshal.%s: the serve goroutine captured %s while the reader was inside Marshal' % (sc['park'], sc['later']),
+                          {'schedule': sc, 'observed': o})
         rep = {'schedule': sc, 'observed': o, 'snapshots': allowed1}
         fp1 = o.get('fp1') or []
         if len(fp1) != 1 or fp1[0] not in allowed1:
